@@ -105,3 +105,38 @@ Proof.
   unfold encode_method_frame, enc_method_frame, enc_method, grammar_encode.
   rewrite (wlayout_sound wr_gen d _ _ _ Ew). rewrite Hlw, H1, H4, H3. reflexivity.
 Qed.
+
+(* ---------- decoder part of C11 over the regenerated shapes ---------- *)
+From GMQ Require Import Proofs.CodecTotalProofs.
+
+(* what ReadLongstr / ReadFrame commit to a forged length is bounded by this constant (1 MiB);
+   the code's own bound (maxPrealloc, 128 KiB) is regenerated into TagsGen.v *)
+Definition alloc_bound : N := 2 ^ 20.
+
+Lemma gen_alloc_shapes : exists c1 c2, longstr_alloc = AllocChunked c1 /\ frame_alloc = FrameChunked c2 /\
+                                       c1 <= alloc_bound /\ c2 <= alloc_bound.
+Proof. do 2 eexists. repeat split; try reflexivity; vm_compute; discriminate. Qed.
+
+Lemma gen_decoders_safe : forall d bs,
+  safe alloc_bound (decode_value d bs) /\ safe alloc_bound (decode_table d bs) /\ safe alloc_bound (decode_longstr bs) /\
+  safe alloc_bound (decode_method_frame d bs) /\ safe alloc_bound (decode_header d bs) /\
+  safe alloc_bound (decode_frame bs) /\ safe alloc_bound (decode_message d bs) /\
+  safe alloc_bound (dec_queue bs) /\ safe alloc_bound (dec_exchange bs) /\ safe alloc_bound (decode_binding d bs) /\
+  safe alloc_bound (dec_shortstr bs).
+Proof.
+  intros d bs. destruct gen_alloc_shapes as [c1 [c2 [E1 [E2 [H1 H2]]]]].
+  unfold decode_value, decode_table, decode_longstr, decode_method_frame, decode_header, decode_frame, decode_message, decode_binding.
+  rewrite E1, E2.
+  repeat split.
+  - apply (safe_mono c1 _ _ H1), safe_value_top.
+  - apply (safe_mono c1 _ _ H1), safe_table.
+  - apply (safe_mono c1 _ _ H1), safe_longstr.
+  - apply (safe_mono c1 _ _ H1), safe_method_frame.
+  - apply (safe_mono c1 _ _ H1), safe_header.
+  - apply (safe_mono c2 _ _ H2), safe_frame.
+  - apply safe_message; assumption.
+  - apply safe_queue.
+  - apply safe_exchange.
+  - apply (safe_mono c1 _ _ H1), safe_binding.
+  - apply safe_shortstr.
+Qed.
